@@ -11,6 +11,7 @@ Graph.tla in C11, Binned.tla in C10.)
   Annotation.tla  gene / transcript / exon tables and their ids from GTF and GFF3 attribute text (datatypes/gtf.py)
   Join.tla        left join of two key-grouped streams (streams/left_join.py)
   Consensus.tla   single-base variants applied to reference sequences (variants/consensus.py)
+  Lookup.tla      tables indexed by letters (encoded_array.py: EncodedLookup)
   Csv.tla         delimited files with a header line read into a user-defined table type by column name (io/delimited_buffers.py)
   Motif.tla       motif files (.jaspar, .csv) read with read_motif and scored (io/jaspar.py, io/motifs.py)
   Windows.tla!Index   k-mer index and lookup (sequence/indexing/kmer_indexing.py), on the states of MC_C13
@@ -189,6 +190,45 @@ def check_kmer_index(v):
     return {"n": n, "nt": [json.dumps(["kidx", rows])] if len(rows) > 1 else [], "bad": bad}
 
 
+def check_lookup(v):
+    """One state of spec/Lookup.tla: the writes applied to EncodedLookup objects through letter keys, then every read."""
+    import bionumpy as bnp
+    from bionumpy import EncodedLookup
+    from bionumpy.encodings.alphabet_encoding import AlphabetEncoding
+    n_ = v["n"]
+    L = "ACGT"[:n_]
+    enc = AlphabetEncoding(L)
+    if not v["writes"]:
+        return {"n": 0, "nt": [], "bad": []}
+    bad, n = [], 0
+    for form in ("str", "encoded"):
+        def key(t):
+            text = "".join(L[a - 1] for a in t)
+            return text if form == "str" else bnp.as_encoded_array(text, enc)
+
+        def run_():
+            one = EncodedLookup(np.zeros(n_, dtype=int), enc)
+            two = EncodedLookup(np.zeros((n_, n_), dtype=int), enc)
+            for kind, t, val in v["writes"]:
+                if kind == "one":
+                    one[key(t)] = val
+                else:
+                    two[key(t[:1]), key(t[1:])] = val
+            whole = list(range(1, n_ + 1))
+            r1 = [int(x) for x in np.asarray(one[key(whole)]).tolist()] + [int(np.asarray(one[key([a])]).ravel()[0]) for a in whole]
+            r2 = [[int(x) for x in np.asarray(two[key([a] * n_), key(whole)]).tolist()] for a in whole]
+            rev = [int(x) for x in np.asarray(one[key(whole[::-1])]).tolist()]
+            return r1, r2, rev
+        o = outcome(run_)
+        n += 1
+        want = (v["one"] + v["one"], v["two"], v["one"][::-1])
+        if o != ("ok", want):
+            bad.append({"what": "a table indexed by letters does not hold what was written to it through letter keys",
+                        "tags": {"spec": "Lookup", "key": form}, "vector": v, "case": {"alphabet": L, "writes": v["writes"]},
+                        "expected": list(want), "observed": o})
+    return {"n": n, "nt": [json.dumps(["lookup", v["writes"]])] if len(v["writes"]) > 1 else [], "bad": bad}
+
+
 def check_consensus(v):
     """One state of spec/Consensus.tla: the variants applied to the reference sequences."""
     import bionumpy as bnp
@@ -346,6 +386,10 @@ def run(ctx):
                       invariants=["LengthKept", "OnlyVariantPositionsChange", "Emit"], properties=["OneLetter"], coverage=True)
         ctx.require_actions(res, "MC_Consensus", ["Add"])
         ctx.absorb(core.pmap(check_consensus, res.vectors, chunk=50))
+    res = ctx.tlc("MC_Lookup", tag="MC_Lookup", spec="Spec", workers=4, constants={"N": 3, "Values": [5, 7], "MaxWrites": 2 if quick else 3},
+                  invariants=["LastWriteWins", "Emit"], properties=["Frame"], coverage=True)
+    ctx.require_actions(res, "MC_Lookup", ["Set1", "Set2"])
+    ctx.absorb(core.pmap(check_lookup, res.vectors, chunk=100))
     res = ctx.tlc("MC_Join", tag="MC_Join", spec="Spec", workers=4, constants={"Keys": [1, 2, 3] if quick else [1, 2, 3, 4], "MaxLeft": 3 if quick else 4, "MaxRight": 2 if quick else 3},
                   invariants=["Right", "PrefixRight", "Emit"], coverage=True)
     ctx.require_actions(res, "MC_Join", ["Step", "Finish"])
@@ -391,6 +435,8 @@ def replay(d):
         r = check_matrix(v)
     elif d["tags"].get("spec") == "Consensus":
         r = check_consensus(v)
+    elif d["tags"].get("spec") == "Lookup":
+        r = check_lookup(v)
     elif d["tags"].get("spec") == "Csv":
         w = os.path.join(core.VERIF, ".work", "replay")
         os.makedirs(w, exist_ok=True)
